@@ -398,3 +398,21 @@ mod tests {
         assert!(server_txn.commit().is_ok());
     }
 }
+
+/// Hooks for the out-of-tree /verif machinery (feature `verif-hooks`, off by default):
+/// the per-entry transform that all three plugin entry points (`pre_create_transform`,
+/// `pre_modify`, `pre_batch_modify`) apply, callable on a detached entry.
+#[cfg(feature = "verif-hooks")]
+pub mod verif {
+    use super::*;
+
+    pub fn transform_new(e: &mut Entry<EntryInvalid, EntryNew>) -> Result<(), OperationError> {
+        apply_gidnumber(e)
+    }
+
+    pub fn transform_committed(
+        e: &mut Entry<EntryInvalid, EntryCommitted>,
+    ) -> Result<(), OperationError> {
+        apply_gidnumber(e)
+    }
+}
